@@ -153,7 +153,26 @@ CHECKS["C11"] = dict(
     note="Trusted: TLC, the harness's recording loaders (their Abs implements the name rules). Reference graphs of depth <=2 with <=3 edges.",
     technique="TLA+ executable specification enumerated by TLC + exhaustive replay with recording loaders and file-system canaries", ref="DESIGN.md §3 C11")
 
-PENDING = {}
+CHECKS["C17"] = dict(
+    text="PongoFilters.tla defines each escaping filter as a per-character (small-window) transducer over character classes and states the "
+         "promises as invariants of the reference itself (escape output has no dangerous character and HTML-unescapes to the input, addslashes "
+         "adds exactly the named backslashes, escapejs output is letters / space / slash / \\uXXXX, striptags leaves no complete tag). TLC "
+         "checks them on all strings up to the bound and every string is replayed through ApplyFilter and the template syntax; the class "
+         "rules are then concretised exhaustively over the BMP by the harness. 'All strings' = bounded-exhaustive over the special "
+         "characters + exhaustive over single characters and windows.",
+    note="Trusted: TLC, the harness's class rules (a direct transcription of the module's class definitions), Go's utf8/utf16. Named deviations in evidence.",
+    technique="TLA+ reference transducers model-checked by TLC + exhaustive replay + exhaustive BMP class sweep", ref="DESIGN.md §3 C17")
+CHECKS["C18"] = dict(
+    text="PongoFilters.tla gives reference definitions (Python slicing, character-counted sequence operations, padding/truncation shapes, "
+         "numeric filters, widthratio rounding) and TLC checks shape invariants on them over exhaustive integer windows; every case is "
+         "replayed through ApplyFilter and the template syntax and the result compared as a value (kind, content, element-wise for lists).",
+    note="Trusted: TLC, harness value comparison. Not decided: date/time/stringformat/floatformat/float (Go formatters, IEEE) - see evidence assumptions.",
+    technique="TLA+ reference definitions enumerated by TLC + exhaustive replay through both routes", ref="DESIGN.md §3 C18")
+
+PENDING = {
+    "C01": "in progress: the API outcome machine and the grammar generator are being built; every other check already runs its programs under a no-panic oracle",
+    "C08": "in progress: PongoResolve.tla (cursor walk over catalogue values) is being built",
+}
 
 def main():
     ids = ["C%02d" % i for i in range(1, 21)]
